@@ -37,20 +37,27 @@ def _v(fixed):
 FIXED = {1, 3, 4, 6, 7}
 VARIANTS = ["repaired", _v(FIXED)] + [_v(FIXED | {i}) for i in (2, 5, 8, 9)]
 MODEL_NEEDS_IMPL = True
-RULE = ("random configurations: 1-3 IPv4 pools (0-3 addresses, exclusions, two profiles, VRFs 0/1, globally disjoint "
-        "ranges, sometimes one containing 100.64.0.1), 0-2 IA_NA pools, 0-2 PD pools (/63 or /62 -> /64); 2-5 "
-        "subscribers (PPPoE / IPoE, sometimes sharing a MAC); 5-16 ops (AAA accept with static v4/v6/PD inside/"
-        "outside/duplicate, pool overrides existing/missing/foreign, IPCP requests with told/other/0/no address, "
-        "terminate incl. double, DISCOVER/REQUEST, ResolveV6, release, admin terminate, lease expiry). "
+RULE = ("stage A (function level, PPPoE SessionState + IPoE resolve/provider path): random configurations of 1-3 "
+        "IPv4 pools (0-3 addresses, exclusions, two profiles, VRFs 0/1, disjoint per VRF, sometimes the same subnet "
+        "in the other VRF, sometimes one containing 100.64.0.1), 0-2 IA_NA pools, 0-2 PD pools (/63 or /62 -> /64); "
+        "2-5 subscribers (PPPoE / IPoE, sometimes sharing a MAC); 5-16 ops (AAA accept and re-authentication with "
+        "static v4/v6/PD inside/outside/duplicate, pool overrides existing/missing/foreign, IPCP requests with "
+        "told/other/0/no address, terminate incl. double, DISCOVER/REQUEST, ResolveV6, release, admin terminate, "
+        "lease expiry); churn family (release order unsorts the free list, statics afterwards); re-authentication "
+        "family (one profile with the same range in VRF 0 and 1, re-auth, terminate, new subscribers). "
+        "Stage B (real ipoe.Component with fakes): life-cycle scripts of 2-4 dual-stack subscribers with queued / "
+        "reversed southbound completions, lease expiry, partial releases and restarts. "
         "Non-trivial: at least two sessions were told an address and at least one release happened. "
         "Distinct: by case text.")
-TRUSTED = ["IPoE at function level: the release sequences of internal/ipoe handleRelease/cleanupSessions/"
-           "handleSubscriberTerminate are re-stated by the harness (stage B would drive the component itself)",
+TRUSTED = ["stage A drives IPoE at function level: the release sequences of internal/ipoe handleRelease/"
+           "handleDHCPv6Release/handleSubscriberTerminate are re-stated by that harness; stage B drives the "
+           "component's own handlers",
            "lease expiry is produced by setting Lease.ExpireTime into the past through an injected accessor",
-           "PD index arithmetic is modelled as floor(((a - base) mod 2^128) / 2^shift) mod 2^64 (C01 owns its proof)"]
-ASSUMPTIONS = ["theorems assume pools of one family have pairwise disjoint ranges (across VRFs too) and a "
-               "well-formed geometry (slot -> address -> slot round-trips); overlapping pools in different VRFs "
-               "appear only in corpus witnesses",
+           "stage B: the mapping from component events to model ops (gates: approved / in flight / created / "
+           "pending) lives in ocaml/C02_run.ml, not in Gallina; a wrong mapping shows as a mismatch",
+           "stage B fakes: event bus, config, cache, southbound, in-memory opdb"]
+ASSUMPTIONS = ["theorems assume pools of one family and one VRF have pairwise disjoint ranges and, for PD pools, a "
+               "well-formed geometry (C02_config_pools_wf discharges pool_wf/resettable from it)",
                "each handler runs atomically (goroutine-per-packet interleavings inside one handler are not modelled)"]
 
 FALLBACK = 1681915905  # 100.64.0.1
@@ -689,9 +696,33 @@ def classify(case, impl, model):
     return "G", "implementation and model disagree;" + where
 
 
+OPEN = {2: "release-frees-foreign-lease", 5: "static-outside-pools-untracked",
+        8: "restore-keeps-conflicting-address", 9: "reserve-ignores-vrf"}
+
+
 def signature(case, impl, models):
-    if case.startswith("B "):
-        return signature_b(case, impl, models)
+    """Label of the open finding that explains a mismatch against `repaired`.  The trace-shape heuristics below give
+    the label directly in the common cases; where they cannot tell (a later consequence of an earlier deviation),
+    the attribution is differential: the implementation's trace equals the model of /repo HEAD, and the finding
+    named is the first one without which the model no longer reproduces the trace."""
+    sig = signature_b(case, impl, models) if case.startswith("B ") else signature_a(case, impl, models)
+    if not sig.startswith("other:"):
+        return sig
+    head = VARIANTS[1]
+    if impl == models.get(head):
+        for i in sorted(OPEN):
+            if impl != models.get(_v(FIXED | {i})):
+                return OPEN[i]
+    else:
+        match = [i for i in sorted(OPEN) if impl == models.get(_v(FIXED | {i}))]
+        if match:
+            for i in sorted(OPEN):
+                if i not in match:
+                    return OPEN[i]
+    return sig
+
+
+def signature_a(case, impl, models):
     d = first_diff(impl, models["repaired"])
     if not d:
         return "none"
